@@ -894,6 +894,34 @@ fn suite_nvm(w: &mut dyn Write, rng: &mut Rng, scale: usize, only: &Only) {
             let _ = nvm_create(w, id, base + FRAME_SIZE, z - 1, false, c, &bl, &bt);
             unsafe { std::ptr::write_bytes(base as *mut u8, 0, (z + 2) * FRAME_SIZE) };
         }
+        // zones that END at the same frame share the header page: an instance created on the suffix
+        // region[k*TREE_FRAMES..] (a legal, tree-aligned zone) must not be recovered through the whole region
+        // (recorded count smaller than zone.len() - 1) nor through another suffix; only through itself
+        for k in [1usize, 2] {
+            if z <= k * tf {
+                continue;
+            }
+            let (sbase, sz) = (base + k * tf * FRAME_SIZE, z - k * tf);
+            let Some(cr) = nvm_create(w, id, sbase, sz, false, c, &bl, &bt) else {
+                continue;
+            };
+            for order in [0usize, 0, 3, HUGE_ORDER] {
+                if let Ok(Ok((f, _))) = guarded(|| cr.alloc.get(None, simple_req(order, 0))) {
+                    writeln!(w, "NG {id} {:x} {order}", f.0).unwrap();
+                }
+            }
+            drop(cr);
+            // (a) the whole region: larger zone, same header page -> refuse
+            let _ = nvm_create(w, id, base, z, true, c, &bl, &bt);
+            // the other suffix: larger (k = 2) or smaller (k = 1) zone, same header page -> refuse
+            let ok_ = 3 - k;
+            if z > ok_ * tf {
+                let _ = nvm_create(w, id, base + ok_ * tf * FRAME_SIZE, z - ok_ * tf, true, c, &bl, &bt);
+            }
+            // (c) the instance's own zone -> accept
+            let _ = nvm_create(w, id, sbase, sz, true, c, &bl, &bt);
+            unsafe { std::ptr::write_bytes(base as *mut u8, 0, (z + 2) * FRAME_SIZE) };
+        }
         let Some(cr) = nvm_create(w, id, base, z, false, c, &bl, &bt) else {
             continue;
         };
@@ -956,6 +984,22 @@ fn suite_nvm(w: &mut dyn Write, rng: &mut Rng, scale: usize, only: &Only) {
             let _ = nvm_create(w, id, base, z - 1, true, c, &bl, &bt);
         }
         let _ = nvm_create(w, id, base, z + 1, true, c, &bl, &bt);
+        // (b) a suffix of the instance's zone: smaller zone, same header page (recorded count larger) -> refuse
+        for k in [1usize, 2] {
+            if z > k * tf {
+                let _ = nvm_create(w, id, base + k * tf * FRAME_SIZE, z - k * tf, true, c, &bl, &bt);
+            }
+        }
+        // magic intact, recorded frame count off by one in either direction -> refuse
+        {
+            let fp = (base + (z - 1) * FRAME_SIZE + FRAMES_OFF) as *mut usize;
+            let recorded = unsafe { fp.read_volatile() };
+            for wrong in [recorded.wrapping_sub(1), recorded + 1] {
+                unsafe { fp.write_volatile(wrong) };
+                let _ = nvm_create(w, id, base, z, true, c, &bl, &bt);
+            }
+            unsafe { fp.write_volatile(recorded) };
+        }
         // recover with the same length must succeed with the same allocation state
         let Some(cr) = nvm_create(w, id, base, z, true, c, &bl, &bt) else {
             writeln!(w, "NS {id} {managed} {held_frames} {} {} - - -", before.free_frames, before.free_huge).unwrap();
